@@ -18,7 +18,9 @@ from .. import fsmodel
 PROP = "C15"
 FRESH_REPLAY = True      # histories may pollute process-global state of the real package
 OPS = ["evaluate_x1", "evaluate_x2", "construct_other_evaluator_cldsc", "construct_default_handler_and_evaluator", "aggregator_log_times",
-       "read_metric_keys", "aggregator_plain", "evaluate_x1_save_group_times", "evaluate_merge_group_only_input", "other_evaluator_reads_its_keys"]
+       "read_metric_keys", "aggregator_plain", "evaluate_x1_save_group_times", "evaluate_merge_group_only_input", "other_evaluator_reads_its_keys",
+       "evaluate_empty_prediction"]
+XE = ([0, 0, 0, 0, 0, 0, 0, 0], [1, 1, 1, 0, 2, 2, 0, 0])      # empty prediction: precision is 0/0 and is left out of that result's dictionary
 X3 = ([0, 3, 3, 4, 0, 0, 4, 0, 0, 0], [0, 3, 3, 3, 4, 0, 0, 0, 0, 0])      # only labels of the merge group (3, 4)
 X1 = ([1, 1, 1, 0, 2, 2, 0, 0], [1, 1, 1, 1, 1, 1, 0, 2])      # pred, ref: group-1 instance with IoU 1/2, group-2 pieces
 X2 = ([0, 1, 1, 0, 0, 2, 2, 2], [1, 1, 1, 1, 1, 0, 2, 2])      # group-1 instance with IoU 2/5 (between matcher and decision threshold)
@@ -234,6 +236,8 @@ def run_case(case):
                     ev.resulting_metric_keys
                 elif op == "evaluate_merge_group_only_input":
                     run(ev, X3, verbose=False)
+                elif op == "evaluate_empty_prediction":
+                    run(ev, XE, verbose=False)
                 elif op == "other_evaluator_reads_its_keys":
                     P.Panoptica_Evaluator(global_metrics=[Metric.DSC]).resulting_metric_keys
         except EngineSignal:
@@ -389,6 +393,8 @@ def real_history(case, mode, expect):
                     ev.resulting_metric_keys
                 elif op == "evaluate_merge_group_only_input":
                     _run_real(ev, X3, verbose=False)
+                elif op == "evaluate_empty_prediction":
+                    _run_real(ev, XE, verbose=False)
                 elif op == "other_evaluator_reads_its_keys":
                     Panoptica_Evaluator(global_metrics=[Metric.DSC]).resulting_metric_keys
             got = _run_real(ev, XF, verbose=False)
